@@ -189,5 +189,8 @@ func VHString() {
 // VHHistory: D operations in a row from the constructor (see VMapHistory).
 func VHHistory() {
 	m := NewWith[int, int](vl.Cmp)
+	if v.CfgOr("ctor", 0) == 1 { // the default-comparator constructor (cmp.Compare); only meaningful with cmp=0
+		m = New[int, int]()
+	}
 	maps.VMapHistory(m, maps.VKind{Name: "TreeMap", SortedKeys: true, Inv: func() { rbt.VInv(m.tree) }})
 }
